@@ -26,7 +26,7 @@ import socket
 
 from ..leanclient import hx
 
-TRANSLATORS = []
+TRANSLATORS = ["ct", "rsadecrypt"]
 
 MANIFEST = {
     "text": "Proof: Tls.Rsa.decrypt (statement-by-statement Lean model of RSAKey.decrypt with its masked arithmetic, over abstract "
@@ -42,9 +42,17 @@ MANIFEST = {
             "earlier because of the premaster (server_differs_from_valid_only_at_finished, no_early_alert; SSLv3 with client "
             "certificate excepted: CertificateVerify signs the master secret there). Tie: correspondence model vs RSAKey.decrypt on "
             "real keys (512..2048 bit incl. odd sizes) over all message lengths, every padding-defect class, boundary separators, "
-            "c >= n, wrong lengths, random ciphertexts; processClientKeyExchange vs model; independent re-derivation of the synthetic "
+            "c >= n, wrong lengths, random ciphertexts; processClientKeyExchange vs model; regeneration: translate/gen_rsadecrypt.py "
+            "re-translates RSAKey._raw_private_key_op_bytes, _dec_prf, decrypt and RSAKeyExchange.processClientKeyExchange statement by "
+            "statement from the Python AST of the tree under check into Lean (Tls.RsaDec.Gen over the Python-runtime model Tls.Py/Tls.PyE; "
+            "anything not understood is poison) and Gen.f = hand model is proved for all inputs (gen_*_eq), so the theorems hold of the "
+            "source text as it is now (gen_decrypt_total, gen_decrypt_valid, gen_decrypt_invalid_uniform, "
+            "gen_premaster_independent_of_defect); independent re-derivation of the synthetic "
             "message; server-level loopback handshakes comparing the server's wire trace across malformation classes for SSLv3..TLS1.2.",
-    "note": "Trusted: Lean kernel (axioms propext, Classical.choice, Quot.sound), the correspondence harness, hashlib/hmac/pow of CPython. "
+    "note": "Trusted: Lean kernel (axioms propext, Classical.choice, Quot.sound), the translators translate/gen_rsadecrypt.py and "
+            "translate/gen_ct.py with the Python-runtime model TlsModel/PyInt.lean + PyExc.lean (cryptomath's numBits/numBytes/"
+            "bytesToNumber/numberToByteArray, SHA-256, HMAC and the private-key operation are parameters of it), "
+            "the correspondence harness, hashlib/hmac/pow of CPython. "
             "HMAC is an arbitrary function with 32-byte output; key size 11 <= k < 65536 bytes. The server flow after ClientKeyExchange "
             "is modelled for one message per record (no fragment reassembly, heartbeat, renegotiation branches) and tied to the observed "
             "loopback traces (records consumed counted at the record layer). Timing is not modelled "
@@ -1376,7 +1384,9 @@ def run(ctx):
     ctx.assumptions = ["hashlib SHA-256 / hmac and CPython pow are correct (they supply the oracle tables and the reference)",
                        "the reference implicit-rejection derivation in harness/props/c11.py (written from the algorithm description, "
                        "sees only d, k and the ciphertext) is the property's reading of 'fixed pseudo-random message'",
-                       "Lean theorems: HMAC output is 32 bytes; 11 <= k < 65536"]
+                       "Lean theorems: HMAC output is 32 bytes; 11 <= k < 65536",
+                       "translate/gen_rsadecrypt.py renders the Python AST faithfully into Tls.Py/Tls.PyE (TlsModel/PyInt.lean, "
+                       "PyExc.lean); cryptomath helpers, SHA-256, HMAC, the private-key operation and getRandomBytes are parameters"]
     keys = keys_for_run(ctx)
     ctx.extra["keys"] = [{"label": l, "bits": nums[0].bit_length(), "k": kbytes(nums[0])} for l, nums in keys]
     small_helpers(ctx)
@@ -1390,6 +1400,48 @@ def run(ctx):
     construction_path_cases(ctx)
     pcke_cases(ctx, keys[2][1])
     server_cases(ctx)
+    broken = gen_obligations_broken(ctx)
+    if broken:
+        # the regenerated source no longer computes the hand model: look for a concrete input on which
+        # the real code leaves the property (all streams above already ran; this widens them)
+        ctx.extra["gen_obligations_broken"] = broken
+        if not any(v["found"] for v in ctx.violations):
+            deep_search(ctx, keys)
+
+
+def gen_obligations_broken(ctx):
+    b = ctx.build or {}
+    return [t for t in b.get("failed", []) if ".gen_" in t or ".ct_" in t or t.startswith("Props.")]
+
+
+def deep_search(ctx, keys):
+    """run when a gen_* obligation fails and nothing above produced a concrete failing input: the ct_*
+    helpers against their specification (wide), then the decrypt / uniformity / synthetic-selection /
+    processClientKeyExchange streams on further key sizes: the smallest the property applies to, sizes
+    around powers of two of k-10 (length mask), an odd large one.  Problems of the search itself are not
+    violations."""
+    from . import c12
+    try:
+        c12.helper_oracle(ctx, deep=True, prefix="c11")
+    except Exception as e:
+        ctx.count("deep-search-error:helper:" + type(e).__name__)
+    sizes = [136, 200, 208, 264, 272, 584, 600, 1112, 2056]
+    for bits in sizes:
+        if any(v["found"] for v in ctx.violations):
+            return
+        try:
+            nums = make_key_numbers(bits, ctx.rng)
+            label = "deep%d" % bits
+            decrypt_cases(ctx, nums, label)
+            uniformity_cases(ctx, nums, label)
+            synth_select_cases(ctx, nums, label)
+        except Exception as e:
+            ctx.count("deep-search-error:%d:%s" % (bits, type(e).__name__))
+    try:
+        for label, nums in keys[:2]:
+            pcke_cases(ctx, nums)
+    except Exception as e:
+        ctx.count("deep-search-error:pcke:" + type(e).__name__)
 
 
 # ----------------------------------------------------------------------------------------------
@@ -1402,6 +1454,9 @@ def replay(ctx, rep):
         for v in ctx.violations:
             print(v["what"][:300])
         return failed
+    if stage == "helper":
+        from . import c12
+        return c12.replay(ctx, rep)
     if stage == "decrypt":
         nums = blob_key(inp["key"])
         c = bytes.fromhex(inp["c"])
